@@ -44,3 +44,62 @@ class ProtoclusterAddCds:
             (cds in self._definition_cdses) == (contains_spec(self._core_location, cds.location)
                                                 and core_products(annotations, self.product)),
     }
+
+
+# ---- CDSCollection.add_cds ---------------------------------------------------------------------------
+COLLECTION_FILE = "antismash/common/secmet/features/cdscollection.py"
+
+
+def _cache(label):
+    return Rec("_CDSCache", label=label, _features=Const({}), _cached=Const(()), _dirty=Bool)
+
+
+AREA = Rec("CDSCollection", label="AreaWithoutChildren", location=OneOf(FL, CL(2, 2)), _children=Const([]),
+           _cdses=Rec("_SectionedCDSCache", label="SectionedCache", _features=Const({}), _cached=Const(()), _dirty=Bool,
+                      _pre_origin=_cache("PreOrigin"), _cross_origin=_cache("CrossOrigin"),
+                      _post_origin=_cache("PostOrigin")))
+GENE = Rec("CDSFeature", label="GeneLocationOnly", location=OneOf(FL, CL(2, 2)))
+
+
+@spec
+def forward_area(area):
+    """areas are on the forward strand, a two-part one is an area over the origin: [a, L) + [0, b) with b <= a"""
+    parts = area.location.parts
+    return (wf(area.location) and all(p.strand == 1 for p in parts)
+            and (len(parts) == 1 or (parts[1].start == 0 and parts[1].end <= parts[0].start)))
+
+
+@spec
+def gene_ok(gene):
+    """genes over the origin have two parts, the first reaching the record end, the second starting at 0"""
+    parts = gene.location.parts
+    return (wf(gene.location) and all(p.strand == parts[0].strand for p in parts)
+            and (len(parts) == 1 or (parts[0].strand == 1 and parts[1].start == 0 and parts[1].end <= parts[0].start)
+                 or (parts[0].strand == -1 and parts[0].start == 0 and parts[0].end <= parts[1].start)))
+
+
+@contract(f"{COLLECTION_FILE}::CDSCollection.add_cds", props=["C08"])
+class CollectionAddCds:
+    """An area (without child areas) takes a gene exactly when every part of the gene lies inside a part of the
+    area, lists it once, and files it under the section of the area it lies in."""
+    params = {"self": AREA, "cds": GENE, "section": Const(None)}
+
+    def requires(self, cds):
+        return forward_area(self) and gene_ok(cds)
+
+    raises = {"ValueError": lambda self, cds: not contains_spec(self.location, cds.location)}
+    on_raise = {"a-refused-gene-is-not-listed": lambda self: len(self._cdses._features) == 0}
+    ensures = {
+        "listed-once": lambda self, cds: len(self._cdses._features) == 1 and cds in self._cdses._features,
+        "filed-under-the-section-it-lies-in": lambda self, cds:
+            (cds in self._cdses._cross_origin._features) == (len(cds.location.parts) == 2)
+            and (cds in self._cdses._pre_origin._features)
+            == (len(cds.location.parts) == 1 and len(self.location.parts) == 2
+                and not (self.location.parts[1].start <= cds.location.start
+                         and cds.location.end <= self.location.parts[1].end))
+            and (cds in self._cdses._post_origin._features)
+            == (len(cds.location.parts) == 1
+                and (len(self.location.parts) == 1
+                     or (self.location.parts[1].start <= cds.location.start
+                         and cds.location.end <= self.location.parts[1].end))),
+    }
